@@ -233,9 +233,14 @@ def c09 (v : StepView) : Verdict :=
     if survives then fine [(if pristine then "c09:pristine" else "c09:preserved")]
     else if pristine then fine ["c09:pristine-deleted"]
     else
-      -- recorded finding: deletion is decided by the probed state "not yet populated"
-      let st := (allStates v.pre ls v.users).find? (·.1 == a0)
-      if (st.map (·.2)) == some St.complete then
+      -- recorded finding: deletion is decided by the PROBED state "not yet populated" — the
+      -- state the code computes (model of the probe on the implementation's own pre-state),
+      -- which may differ from the documented one inside other recorded findings
+      let w0 : World := { fs := v.pre.fs, kt := { mnts := v.pre.mnts, nextId := (v.pre.mnts.foldl (fun acc x => max acc x.id) 99) + 1 } }
+      let probed := match (getLayers v.cfg v.users).run.run w0 with
+        | (.ok d, _) => (findLayer d a0).map (·.state)
+        | _ => none
+      if probed == some S_complete then
         known "remove-deletes-unpopulated-layer-with-data" "remove without -files deleted user data of a layer in state 'not yet populated'"
       else bad "remove without -files destroyed user data"
 
@@ -459,7 +464,9 @@ def c16 (v : StepView) : Verdict :=
     | .symlink _ => true
     | node => Fs.get v.post.fs e.1 == some node
   if !nonLinkKept then bad "an export entry that is not a symlink was deleted or replaced" else
-  if (c == "mount" || c == "chroot") && clsOf v == "ok" then
+  -- (chroot mounts only when the layer is not yet mounted and then makes no links itself:
+  -- the clause is about a successful `mount`)
+  if c == "mount" && clsOf v == "ok" then
     match findD ls a0 with
     | none => fine []
     | some _ =>
